@@ -22,6 +22,7 @@ RULE = ("Generated op programs (model-based testing, the whole program shrinks a
         "metadata object for a state with a unitary dictionary, or an autoload of a model with nh != nv and non-zero biases.")
 RULE_EXT = ('Extended as built: further ops drift_restore (train, load back, compare), load_reinit_save, load into self, save locations as str / pathlib.Path / open file object, bare dictionary files, tensor metadata of several dtypes. Rounds 5-6: a stream holding an earlier record, positioned at the wanted record; identity (not only equality) of every object inside the metadata passed by the caller after save; reserved names refused whatever the value.')
 RULE_EXT += ' Round 10 (after an exception / long time axis): ModelSaver(period 3) over epoch numbers 255..270 (resumed run): a file for every due epoch, the last reloads to the final parameters.'
+RULE_EXT += ' Round 11 (re-entrant use / feature interactions): drift_restore loads the same unchanged file a second and third time after further in-place drift and requires a model auto-constructed from it to be independent.'
 RULE = RULE + " " + RULE_EXT
 ASSUMPTIONS = ["metadata values are of kinds the installed torch's safe loader accepts (python scalars, str, None, list, tuple, dict, tensors)", "CPU only"]
 
